@@ -52,29 +52,72 @@ def c10(tier, seed, t0):
     return lexer_step("C10", tier, seed, t0, "asserted: token text == normalised consumed span; progress; BAD_LEXEME count")
 
 
+def edits(prop, tier, seed, budget):
+    from harness import edits as H
+    res = R.run_pool(H.HNAME, H.chunks(tier, [prop]), budget, seed, tier,
+                     extra=dict(props=[prop], sample_rate=0.05 if tier == "quick" else 0.02, chunk_time=40 if tier == "quick" else 200,
+                                alarm=8.0 if tier == "quick" else 20.0))
+    return R.merge(res), H
+
+
+EDIT_BOUNDS = dict(base_programs="quick: fn.c, ty.h; thorough: fn.c, gl.c, ty.h, pp.c (harness/edits.py BASE_SRC), each behind a valid 42 header",
+                   edit_sites="every (quick: every second) token boundary after the header",
+                   inserted_lexeme="one lexeme of solver-chosen spelling, length 1..4 (quick) / 1..8 (thorough): any keyword, operator, bracket, "
+                                   "digraph/trigraph, identifier, numeric constant, string, char, // or /* */ comment, blank, tab, newline",
+                   structural_edits="cut (with / without trailing newline), delete 1-2 tokens, swap adjacent tokens, duplicate a token",
+                   outside="two or more simultaneous insertions; files longer than ~35 lines; non-ASCII")
+
+
 @register("C05")
 def c05(tier, seed, t0):
-    return lexer_step("C05", tier, seed, t0, "asserted: get_next_token returns (Token | None at end of input) and raises nothing")
+    from harness import lexer_step as HL
+    N = 5 if tier == "quick" else 7
+    res = R.run_pool(HL.HNAME, HL.chunks(tier, N), 100 if tier == "quick" else 1500, seed, tier,
+                     extra=dict(props=["C05"], sample_rate=0.05 if tier == "quick" else 0.02))
+    agg1 = R.merge(res)
+    agg2, HE = edits("C05", tier, seed, 110 if tier == "quick" else 1800)
+    agg = merge2(agg1, agg2)
+    bounds = dict(tokenizer=dict(window_chars=N, alphabet="ASCII 0..127", start="symbolic line/column >= 1",
+                                 claim="one get_next_token() step returns and raises nothing; induction L2"),
+                  pipeline=EDIT_BOUNDS, per_path_alarm_s="5 (lexer) / 8 (pipeline)")
+    return report_multi("C05", {HL.HNAME: agg1, HE.HNAME: agg2}, agg, tier, seed, t0, bounds, LEX_FUNCS + PIPE_FUNCS,
+                        ["lexer locality L1", "a path that hits the per-path alarm is replayed natively; only a reproducing hang is reported",
+                         "CParsingError is the controlled fatal error (allowed outcome)"])
 
 
-@register("C11")
-def c11(tier, seed, t0):
-    from harness import literals as H
-    N = int(os.environ.get("VERIF_N", 0)) or (7 if tier == "quick" else 9)
-    budget = 150 if tier == "quick" else 2400
-    res = R.run_pool(H.HNAME, H.chunks(tier, N), budget, seed, tier, extra=dict(sample_rate=0.1 if tier == "quick" else 0.03))
-    agg = R.merge(res)
-    bounds = dict(literal_chars=N, numeric_alphabet=H.NUM_ALPHA, quoted_alphabet=H.QUO_ALPHA,
-                  delimiters=dict(numeric=H.NUM_DELIMS, quoted=H.QUO_DELIMS), start_position="(1,1) (positions are C09's subject)",
-                  outside="literals longer than the bound; hex escapes with more than 2 digits; octal escapes with more than 3; "
-                          "multi-character constants; trigraph/digraph/splice/tab inside literals (C10/C12); non-ASCII")
-    return R.report("C11", H.HNAME, tier, seed, agg, t0, bounds,
-                    functions=["Lexer.parse_integer_literal", "Lexer.parse_float_literal", "Lexer.parse_char_literal",
-                               "Lexer.parse_string_literal", "Lexer.parse_multi_line_comment", "Lexer.pop", "Lexer.peek",
-                               "INT_LITERAL_PATTERN", "FLOAT_EXPONENT_LITERAL_PATTERN", "FLOAT_FRACTIONAL_LITERAL_PATTERN",
-                               "FLOAT_HEXADECIMAL_LITERAL_PATTERN", "integer_suffixes", "float_suffixes"],
-                    assumptions=["reference recogniser oracle/c_literals.py (C11 6.4.4/6.4.5 + documented extensions)",
-                                 "families V-int V-float V-char V-str and M1..M15 as in DESIGN.md 4.11; strings outside every family are skipped (counted)"])
+def merge2(a, b):
+    out = dict(a)
+    for k in ("paths", "queries", "sat", "unsat", "unknown", "forks", "vacuous", "gaps", "validated", "n_mismatch", "frontier_left",
+              "chunks", "chunks_skipped", "chunks_cut"):
+        out[k] = a[k] + b[k]
+    out["solver_time_s"] = a["solver_time_s"] + b["solver_time_s"]
+    out["errors"] = a["errors"] + b["errors"]
+    out["confirmed"] = dict(a["confirmed"])
+    out["confirmed"].update(b["confirmed"])
+    out["unconfirmed"] = a["unconfirmed"] + b["unconfirmed"]
+    out["mismatches"] = a["mismatches"] + b["mismatches"]
+    out["samples"] = a["samples"][:3] + b["samples"][:3]
+    out["gap_texts"] = dict(a["gap_texts"]); out["gap_texts"].update(b["gap_texts"])
+    out["counters"] = dict(a["counters"]); out["counters"].update(b["counters"])
+    out["notes"] = dict(a["notes"]); out["notes"].update(b["notes"])
+    return out
+
+
+def report_multi(prop, per_harness, agg, tier, seed, t0, bounds, functions, assumptions):
+    """several harnesses feed one property: replay files must name the harness that produced the case"""
+    owner = {}
+    for h, a in per_harness.items():
+        for fp in a["confirmed"]:
+            owner[fp] = h
+    orig = R.write_replay
+
+    def wr(prop_, hname, finding):
+        return orig(prop_, owner.get(finding["fingerprint"], hname), finding)
+    R.write_replay = wr
+    try:
+        return R.report(prop, list(per_harness)[0], tier, seed, agg, t0, bounds, functions=functions, assumptions=assumptions)
+    finally:
+        R.write_replay = orig
 
 
 PIPE_FUNCS = ["norminette.lexer.lexer.Lexer.* (whole tokenizer)", "norminette.context.Context.*", "norminette.registry.Registry.run",
@@ -231,6 +274,39 @@ def c14(tier, seed, t0):
     return R.report("C14", H.HNAME, tier, seed, agg, t0, bounds, functions=PIPE_FUNCS + [
         "CheckPreprocessorProtection.run", "IsPreprocessorStatement.run", "PreProcessors.has_macro_defined", "File.__init__ (basename/splitext modelled on symbolic names)"],
         assumptions=["independent oracle for the expected symbol: ASCII upper-casing and '.'->'_' as z3 definitions over fresh variables, + '_H'"])
+
+
+@register("C07")
+def c07(tier, seed, t0):
+    agg, HE = edits("C07", tier, seed, 150 if tier == "quick" else 1800)
+    return R.report("C07", HE.HNAME, tier, seed, agg, t0, dict(pipeline=EDIT_BOUNDS,
+                    monitor="test-side wrapper around Context.pop_tokens: (jump, tokens before, len(history)) per main-loop iteration",
+                    asserted=["every iteration consumes >= 1 token", "segments are consecutive and cover the stream when run() returns",
+                              "an unrecognised token (pop_tokens(1) without a matching rule) makes the run end with CParsingError when debug == 0 "
+                              "-- also when it is the last thing in a file without trailing newline"]),
+                    functions=PIPE_FUNCS, assumptions=["a statement is 'unrecognised' iff pop_tokens is called without a new history entry"])
+
+
+@register("C06")
+def c06(tier, seed, t0):
+    from harness import purity as HP
+    agg1, HE = edits("C06", tier, seed, 130 if tier == "quick" else 1800)
+    res = R.run_pool(HP.HNAME, HP.chunks(tier), 150 if tier == "quick" else 600, seed, tier, extra=dict(chunk_time=140))
+    agg2 = R.merge(res)
+    agg = merge2(agg1, agg2)
+    bounds = dict(pipeline=EDIT_BOUNDS,
+                  footprint="sys.getrecursionlimit(); every module-level list/dict/set of norminette.*; class attributes of classes defined "
+                            "there (except Rule.context / Rule.name, which Rule.__new__ rewrites before any use); rules.primaries / rules.checks "
+                            "order; Registry.dependencies (empty keys dropped)",
+                  claim="inductive: processing ANY explored file (clean, erroneous, fatal, crashing) leaves the footprint unchanged, hence no "
+                        "history of such files can influence a later analysis",
+                  rule_order="z3 query: no two import orders give different stable-sort results for the loaded priorities; dependency lists have "
+                             "unique names; re-import under 3 permuted directory listings gives identical orders",
+                  two_run=dict(histories=sorted(HP.HISTORIES), probes=sorted(HP.PROBES), checks=["A;B vs B", "B;B vs B"]))
+    return report_multi("C06", {HE.HNAME: agg1, HP.HNAME: agg2}, agg, tier, seed, t0, bounds,
+                        PIPE_FUNCS + ["IsPreprocessorStatement.recursion_limit", "Rule.__new__", "Rules.__init__", "Registry.__init__"],
+                        ["state outside the footprint list (none found by reading the code) is not observed",
+                         "two-run pairs are a fixed probe set (direct check); the footprint invariant is what extends to arbitrary histories"])
 
 
 def main():
